@@ -268,6 +268,28 @@ def has_ref(t):
 PRELUDE = "use serde::{Deserialize, Serialize};\nuse std::collections::{HashMap, HashSet, BTreeMap, BTreeSet};\n\n"
 
 
+# ---- path-qualified spellings of the same types (a Rust path names the same type however it is qualified)
+STD_PATHS = {"Vec": "std::vec::Vec", "Option": "std::option::Option", "Result": "std::result::Result", "HashMap": "std::collections::HashMap",
+             "BTreeMap": "std::collections::BTreeMap", "HashSet": "std::collections::HashSet", "BTreeSet": "std::collections::BTreeSet",
+             "String": "std::string::String"}
+SPELLINGS = ("std", "project", "both")
+
+
+def qualify(text, spelling, project_names=()):
+    """Rust type text with std containers / String written through their std paths ("std"), project types written as
+    crate::Name / self::Name ("project"), or both. None leaves the text alone."""
+    import re
+    if not spelling:
+        return text
+    if spelling in ("std", "both"):
+        text = re.sub(r"(?<![A-Za-z0-9_:])(Vec|Option|Result|HashMap|BTreeMap|HashSet|BTreeSet)(?=<)", lambda m: STD_PATHS[m.group(1)], text)
+        text = re.sub(r"(?<![A-Za-z0-9_:])String(?![A-Za-z0-9_])", STD_PATHS["String"], text)
+    if spelling in ("project", "both"):
+        for k, nm in enumerate(sorted(project_names, key=len, reverse=True)):
+            text = re.sub(r"(?<![A-Za-z0-9_:])%s(?![A-Za-z0-9_])" % re.escape(nm), ("crate::" if k % 2 == 0 else "self::") + nm, text)
+    return text
+
+
 DERIVE_STYLES = ("single", "split-serde-last", "split-serde-first", "serde-only-then-others", "three-attrs", "cfg-attr-between")
 
 
